@@ -40,22 +40,28 @@ TRANS = 'gym_gridverse/envs/transition_functions.py'
 # ----------------------------------------------------------------------- R2
 def action_check(index: RepoIndex, rep, rule: str) -> None:
     f = index.func(GW, 'GridWorld.functional_step')
-    w = walk_function(f.node)
+    from ..view import view
+    from ..guards import f_or, parse_guard, prop_assignments, prop_truth
+    w = view(index, f, cross=('transition_with_copy',))[1]
     ap = f.node.args.args[2].arg
     raises = [e for e in w.events if e.kind == 'raise']
-    want = f'not (self.action_space.contains({ap}))'
-    hit = [e for e in raises if show(strip_iter(w.expand_formula(e.guard))) in
-           (want, f'(not (self.action_space.contains({ap})))')]
-    # the check may be preceded by other non-raising guards; accept conjunctions whose only
-    # positive content is the negated membership test and negations of earlier raise guards
-    if not hit:
-        for e in raises:
-            parts = _conj(strip_iter(w.expand_formula(e.guard)))
-            if any(show(p) == want for p in parts) and \
-                    not any('gv_debug' in show(p) and p[0] != 'not' for p in parts):
-                if all(show(p) == want or p[0] == 'not' or 'gv_debug' not in show(p)
-                       for p in parts):
-                    hit.append(e)
+    MEMBER = f'self.action_space.contains({ap})'
+    member = parse_guard(MEMBER)
+    hit = []
+    for e in raises:
+        g = strip_iter(w.expand_formula(e.guard))
+        earlier = [strip_iter(w.expand_formula(x.guard)) for x in raises if x.order < e.order]
+        E = f_or(*earlier) if earlier else ('false',)
+        ok = True
+        for asg in prop_assignments(g, E, member):
+            fires = prop_truth(g, asg)
+            is_member = prop_truth(member, asg)
+            if fires and is_member:
+                ok = False        # rejects a legal action
+            if not is_member and not prop_truth(E, asg) and not fires:
+                ok = False        # an illegal action gets through (e.g. only checked in debug)
+        if ok:
+            hit.append(e)
     ok = bool(hit)
     rep.check(ok, rule, GW, 'GridWorld.functional_step', f.node.lineno,
               '; '.join(show(strip_iter(e.guard)) for e in raises),
@@ -70,7 +76,7 @@ def action_check(index: RepoIndex, rep, rule: str) -> None:
               src(e.stmt), f'the action check raises `{exc[:40]}`, not ValueError',
               'raises ValueError')
     dyn = [c for c in w.events if c.kind == 'call'
-           and src(c.node.func) in ('transition_with_copy', 'self._transition_function',
+           and src(w.expand(c.node.func)) in ('transition_with_copy', 'self._transition_function',
                                     'self._reward_function', 'self._termination_function')]
     rep.check(bool(dyn) and all(c.order > e.order for c in dyn), rule, GW,
               'GridWorld.functional_step', e.line, src(e.stmt),
